@@ -1057,7 +1057,15 @@ impl<'a> Scenario<'a> {
                 let c = self.conn_for(owner, 92);
                 let o = if self.rng.chance(1, 2) { Some(ObjectUuid(pool_uuid(self.rng.below(n_uuid)))) } else { None };
                 let sv = if self.rng.chance(1, 2) { Some(ServiceUuid(pool_uuid(self.rng.below(n_uuid)))) } else { None };
-                let f = if self.rng.chance(1, 2) { BusListenerFilter::Object(o) } else { BusListenerFilter::Service(BusListenerServiceFilter { object: o, service: sv }) };
+                let mut f = if self.rng.chance(1, 2) { BusListenerFilter::Object(o) } else { BusListenerFilter::Service(BusListenerServiceFilter { object: o, service: sv }) };
+                // half of the time: service filters on one of two specific objects, with and without a service uuid, so that
+                // listeners come to hold several filters that match the same service
+                if self.rng.chance(1, 2) {
+                    let o = Some(ObjectUuid(pool_uuid(self.rng.below(2))));
+                    let sv = if self.rng.chance(1, 2) { Some(ServiceUuid(pool_uuid(self.rng.below(2)))) } else { None };
+                    f = BusListenerFilter::Service(BusListenerServiceFilter { object: o, service: sv });
+                    self.out.count("filter.overlapping_specific_object");
+                }
                 if self.rng.chance(3, 4) {
                     (c, Message::AddBusListenerFilter(AddBusListenerFilter { cookie: BusListenerCookie(ck.uuid()), filter: f }), format!("addFilter {} {}", ck.text(&mut self.names), filter_text(&f)))
                 } else {
